@@ -69,6 +69,10 @@ func c02Variants(reduced bool) []opVariant {
 			c1, _ := c12(sch)
 			return &gen.Where{Kw: "where", Pred: &gen.Binary{Op: ">", X: colRef(c1), Y: num("1")}}, keep(sch)
 		}},
+		{"where-eq-literal", func(sch []string, i int) (gen.Op, []string) {
+			c1, _ := c12(sch)
+			return &gen.Where{Kw: "where", Pred: &gen.Binary{Op: "==", X: colRef(c1), Y: num("1")}}, keep(sch)
+		}},
 		{"where-notnull", func(sch []string, i int) (gen.Op, []string) {
 			_, c2 := c12(sch)
 			return &gen.Where{Kw: "where", Pred: &gen.Call{Func: "isnotnull", Args: []gen.Expr{colRef(c2)}}}, keep(sch)
@@ -504,6 +508,12 @@ func c02Main(r *run.Runner) {
 		"T | top 2 by a | project a = b, c = a | top 1 by a", "T | where a > 0 | project b = a, a = b | where a > 1 | project b",
 		"T | summarize n = count() by a | project a = n, n = a | sort by n", "T | extend sort = a, by = b | sort by sort asc, `by` | take 2",
 		"T | project `where` = a, `take` = b | where `where` > 1 | take 1", "T | extend x = a | extend x2 = x + 1 | extend x3 = x2 + x | project x3, x | sort by x3",
+		// a name that is defined, consumed without being exported, and defined again; a key fixed by an equality and then renamed
+		"T | extend d = a - b | project a, b, r = d * 2 | extend d = r + b | where d > 1 | sort by d asc | take 3",
+		"T | extend d = a + 1 | project r = d | extend d = r * 2 | project d, r | sort by d", "T | extend d = a | summarize m = max(d) by b | extend d = m + b | where d > 2 | project d",
+		"T | project d = a, b | project e = d + b | extend d = e - 1 | sort by d asc | take 2", "T | extend d = a | project a, b | extend d = b | where d > 1 | count",
+		"T | where a == 1 and b > 0 | project a = b, c = a | sort by a asc, c | take 2", "T | where a == 2 | project a = b | top 1 by a asc", "T | where b == 1 | extend c = a | project b = c, a | sort by b asc | take 2",
+		"T | where a == 1 | sort by a | project a = b | sort by a | take 2", "T | where a == 1 | summarize a = max(b) by k = a | sort by a | take 1",
 	}
 	r.Sweep("coinciding-names", int64(len(coincide)), func(w *run.Worker, item int64) {
 		p, err := gen.ReadPipeline(coincide[item])
